@@ -104,6 +104,27 @@ def step (s : St) (w : List String) : St × String :=
     match setTree s.leaves.size t.tree with
     | none => (s, "err")
     | some t2 => ({ s with tree := some t2 }, "ok")
+  | some _, ["load", k] =>
+    match s.exports[k.toNat!]? with
+    | none => (s, "bad-op")
+    | some (arr, m) =>
+      match setTree m arr with
+      | none => (s, "err")
+      | some t2 => ({ s with tree := some t2, leaves := arr.extract 0 m }, chk (getRootC t2) (fun r => "ok " ++ r))
+  | some _, ["loadbad", k, m] =>
+    match s.exports[k.toNat!]?, m.toInt? with
+    | some (arr, _), some m =>
+      match setTreeC m arr with
+      | none => (s, "err")
+      | some t2 => ({ s with tree := some t2 }, "ok")
+    | _, _ => (s, "bad-op")
+  | some t, ["find", tok] =>
+    match rawStr tok with
+    | none => (s, "bad-op")
+    | some h =>
+      let idx : Int := match getLeafIndex "" t h with | some i => (i : Int) | none => -1
+      (s, chk (getPathC "" t h) (fun p => chk (verdict t h p) (fun v =>
+        "ok " ++ toString idx ++ " " ++ toString p.leafIndex ++ " " ++ nodesStr p.nodes ++ " " ++ bstr v)))
   | some t, ["export"] =>
     ({ s with exports := s.exports.push (t.tree, s.leaves.size) }, "ok " ++ toString s.exports.size)
   | some _, ["loadcompute", k, n, tag] =>
